@@ -443,20 +443,25 @@ def notify_flow(ctx, res):
     def _verbatim(f, call_pred, what, key):
         tp = f.args.args[0].arg
         calls = [c for c in ast.walk(f) if isinstance(c, ast.Call)
-                 and call_pred(c)]
-        if len(calls) != 1 or not calls[0].args:
-            raise AnalysisError(f"{f.name}: call of {what} not found")
-        a = expand_locals(f, calls[0].args[0])
-        res.oblige(isinstance(a, ast.Name) and a.id == tp, key,
-                   mod.loc(calls[0]),
+                 and call_pred(c) and c.args]
+        if not calls:
+            res.oblige(False, key, mod.loc(f),
+                       f"{f.name} no longer hands its `{tp}` argument to "
+                       f"{what}")
+            return
+        for c_ in calls:
+          a = expand_locals(f, c_.args[0])
+          res.oblige(isinstance(a, ast.Name) and a.id == tp, key,
+                   mod.loc(c_),
                    f"{f.name} hands `{norm(a)[:60]}` to {what} instead of "
                    f"its `{tp}` argument unchanged: strings outside the "
                    f"documented language become acceptable (or acceptable "
                    f"ones change meaning) before the grammar sees them")
-    _verbatim(fn, lambda c: isinstance(c.func, ast.Attribute)
+    _verbatim(repo.inlined(PARSING, "parse"),
+              lambda c: isinstance(c.func, ast.Attribute)
               and c.func.attr == "parse", "the generated parser",
               "parse:text-verbatim")
-    cs = repo.func(PARSING, "compile_str")
+    cs = repo.inlined(PARSING, "compile_str")
     res.instance("compile_str", mod.loc(cs))
     _verbatim(cs, lambda c: norm(c.func) == "parse", "parse()",
               "compile_str:text-verbatim")
